@@ -374,6 +374,7 @@ func TestC10(t *testing.T) {
 		}
 	}
 	if !onlyReplay {
+		c10ReceiverReal(t, e)
 		c10EstablisherTLS(t, e)
 	}
 	e.Stats["exhaustive"] = !onlyReplay && exhaustiveComplete
